@@ -100,6 +100,10 @@ func TestCheck(t *testing.T) {
 		durationsPart(r, t)
 		r.Finish()
 	}
+	if os.Getenv("VERIF_C03_PART") == "reqshape" { // development switch
+		reqShapePart(r, t)
+		r.Finish()
+	}
 	historyPart(r)
 	type run struct {
 		sc    qsched.Scenario
@@ -206,11 +210,12 @@ func TestCheck(t *testing.T) {
 		dispatcherPart(r, t)
 		restartPart(r, t)
 		durationsPart(r, t)
+		reqShapePart(r, t)
 		processPart03(r)
 	}
 	r.Assume("the virtual clock advances only while no store operation is in flight (operations take microseconds, leases seconds)")
 	r.Assume("scheduling points are the synchronisation operations of the store (mutex, atomics, SQLite connection acquisition); code between them is thread-local provided it is data-race free (side condition checked by a separate free-running -race pass)")
 	r.Assume("Postgres backend and the gRPC/HTTP transports in front of the store are not part of this exploration (pull HTTP: C04; dispatcher: C06)")
-	r.Set("rule", "every interleaving (memory: all; sqlite: within the preemption bound, and additionally WITHOUT a bound under sleep-set partial-order reduction whose result is cross-checked against the plain exploration) of 2-3 consumer threads (dequeue, then ack/nack/extend the own lease), an operator thread (cancel, requeue) and a clock thread crossing the lease expiry, on the real store inside a synctest bubble; oracle per execution: lease-exclusivity monitor on the recorded grants + brute-force linearizability against qmodel; non-trivial = distinct observation logs; plus a history part: every sequence up to the depth over enqueue (incl. re-enqueue of an acked id), dequeue batch 1/2, ack/nack/delayed nack/extend/dead-letter single and batch, cancel/requeue and clock steps on both backends with qmodel and a direct grant monitor (no message twice in one dequeue, never while leased-unexpired / not due / canceled / dead / delivered, fresh lease id, attempt + 1); plus H4: the real PushDispatcher on a MemoryStore in a virtual-time bubble for targets {1,2} x concurrency {1,2,4} x timeout {10 s, 45 s, 2 min} x hang patterns of the first deliveries, with a monitor that no message is delivered by two workers at the same time")
+	r.Set("rule", "every interleaving (memory: all; sqlite: within the preemption bound, and additionally WITHOUT a bound under sleep-set partial-order reduction whose result is cross-checked against the plain exploration) of 2-3 consumer threads (dequeue, then ack/nack/extend the own lease), an operator thread (cancel, requeue) and a clock thread crossing the lease expiry, on the real store inside a synctest bubble; oracle per execution: lease-exclusivity monitor on the recorded grants + brute-force linearizability against qmodel; non-trivial = distinct observation logs; plus a history part: every sequence up to the depth over enqueue (incl. re-enqueue of an acked id), dequeue batch 1/2, ack/nack/delayed nack/extend/dead-letter single and batch, cancel/requeue and clock steps on both backends with qmodel and a direct grant monitor (no message twice in one dequeue, never while leased-unexpired / not due / canceled / dead / delivered, fresh lease id, attempt + 1); plus H4: the real PushDispatcher on a MemoryStore in a virtual-time bubble for targets {1,2} x concurrency {1,2,4} x timeout {10 s, 45 s, 2 min} x hang patterns of the first deliveries, with a monitor that no message is delivered by two workers at the same time; plus a request-shape part: every history up to the depth over {dequeue with client token 1 / 2, ack / nack of the oldest held lease, operator cancel, operator resume, clock past the TTL} through the pull HTTP handler for backend {memory, sqlite} x messages=batch {1, 2} x the way the token is attached to the otherwise byte-identical dequeue request (not at all, Idempotency-Key, X-Request-Id, every conventional retry / correlation / conditional header at once, query parameters), each 200 answer checked: no message that is leased-unexpired, canceled or delivered, a lease id never issued before, attempt = stored attempt before the dequeue + 1")
 	r.Finish()
 }
